@@ -127,15 +127,6 @@ Ltac rle_step_fin q l :=
    cbn [bind]; rewrite add_c_ok by (cbn [ilo ihi]; lia); cbn [bind];
    destruct (negb (dequant q l =? 0)); cbn [bind andb]; reflexivity).
 
-Section Loop.
-Variables (levels : list dct_block) (q : Z).
-Hypothesis Hq : 0 <= q <= 255.
-Goal forall t m h v zz, tcoef_ok t -> 0 <= zz <= 64 ->
-  (let '(m, h, v, zz) := (m, h, v, zz) in p_inverse_rle_forbody24 levels q tt t m h v zz) = step_spec levels q t (m, h, v, zz).
-Proof.
-  autounfold with pgenrle. rle_step_tac q Hq. rle_step_fin q l.
-Qed.
-End Loop.
 
 Lemma mat_rows8 : forall m x y v, length m = 8%nat -> length (mat_set m x y v) = 8%nat.
 Proof. intros m x y v H. unfold mat_set. rewrite upd_nth_length. exact H. Qed.
@@ -182,7 +173,7 @@ Proof.
   destruct (get levels (px / 8 + py / 8 * bpl)) as [d0| | |]; try reflexivity. cbn [bind].
   destruct (tcoefs b) as [|t0 ts] eqn:Ets.
   - destruct (intradc b) as [dc|]; cbn [bind]; [destruct (intradc_level dc =? 0)|]; destruct (set levels _ _); reflexivity.
-  - cbv iota.
+  - cbv iota. cbv zeta. repeat kstepi.
     assert (Hm0 : length zero_mat = 8%nat) by reflexivity.
     destruct (intradc b) as [dc|]; cbn [bind];
       [ rewrite add_c_ok by (cbn [ilo ihi]; lia); cbn [bind]; change (0 + 1) with 1 | ];
